@@ -27,6 +27,9 @@ type Expect struct {
 	Allowed  []string
 	IDFrom   string // claim holding the subject id
 	AttrFrom string // claim holding the attributes ("" = whole payload)
+	// RefuseAll: the key material cannot be obtained legitimately (e.g. the metadata document names another issuer than
+	// the one it was asked for): no token may yield a subject
+	RefuseAll bool
 }
 
 // ServedKey is one key of the key set answered by the JWKS endpoint.
@@ -416,6 +419,10 @@ func reject(reason string, parsed, alias bool) Verdict {
 
 // Decide is the reference decision for one bearer token.
 func Decide(token string, keys []ServedKey, e *Expect, now int64) Verdict {
+	if e.RefuseAll {
+		return reject("key-material-not-obtainable", false, false)
+	}
+
 	parts := strings.Split(token, ".")
 	if len(parts) != 3 {
 		return reject("malformed/not-three-segments", false, false)
